@@ -213,13 +213,13 @@ func (gb GenBank) String() string {
 
 	definition := AddPrefix(gb.Fields.Definition, indent)
 	b.WriteString("DEFINITION  " + definition + ".\n")
-	b.WriteString("ACCESSION   " + gb.Fields.Accession)
+	b.WriteString("ACCESSION   " + AddPrefix(gb.Fields.Accession, indent))
 	if seg, ok := gb.Fields.Region.(gts.Segment); ok {
 		loc := gts.Range(gts.Unpack(seg))
 		b.WriteString(fmt.Sprintf(" REGION: %s", loc))
 	}
 	b.WriteByte('\n')
-	b.WriteString("VERSION     " + gb.Fields.Version + "\n")
+	b.WriteString("VERSION     " + AddPrefix(gb.Fields.Version, indent) + "\n")
 
 	for i, pair := range gb.Fields.DBLink {
 		switch i {
